@@ -757,6 +757,9 @@ private:
                             s.push_back(c);
                             scale -= 4;
                             break;
+                        case 'p': case 'P':
+                            state = hexfloat_parse_state::exp1;
+                            break;
                         default:
                         {
                             ec = cbor_errc::invalid_bigfloat;
